@@ -22,6 +22,20 @@ Proof. intros Hb H. unfold wrap. apply Z.mod_small. exact H. Qed.
 Lemma wrap_range bits x : 0 <= bits -> 0 <= wrap bits x < 2 ^ bits.
 Proof. intros Hb. unfold wrap. apply Z.mod_pos_bound. apply Z.pow_pos_nonneg; lia. Qed.
 
+(* removing the wrap-arounds of a generated arithmetic expression, innermost first, whatever its shape: a wrap whose
+   argument provably fits is dropped; one that may really wrap is named and only its range is kept *)
+Ltac unwrap_goal :=
+  unfold wrap; change (2 ^ 16) with 65536 in *; change (2 ^ 32) with 4294967296 in *; change (2 ^ 64) with 18446744073709551616 in *;
+  repeat match goal with
+  | |- context [?a mod ?m] =>
+    lazymatch a with
+    | context [_ mod _] => fail
+    | _ => first [ rewrite (Z.mod_small a m) by lia
+                 | let w := fresh "w" in let Hw := fresh "Hw" in
+                   pose proof (Z.mod_pos_bound a m ltac:(lia)) as Hw; set (w := a mod m) in * ]
+    end
+  end.
+
 (* --- type preference ---------------------------------------------------- *)
 
 Lemma type_pref_table :
@@ -102,15 +116,8 @@ Lemma priority_formula tp lp comp :
   0 <= tp <= 126 -> 0 <= lp <= 65535 -> 0 <= comp <= 256 ->
   Priority 0 tp lp comp = 2 ^ 24 * tp + 2 ^ 8 * lp + (256 - comp).
 Proof.
-  intros Htp Hlp Hc. unfold Priority. cbn [Z.eqb negb].
-  change (2 ^ 24) with 16777216. change (2 ^ 8) with 256.
-  rewrite (wrap_small 16 (256 - comp)) by (change (2 ^ 16) with 65536; lia).
-  rewrite (wrap_small 32 (16777216 * tp)) by (change (2 ^ 32) with 4294967296; lia).
-  rewrite (wrap_small 32 (256 * lp)) by (change (2 ^ 32) with 4294967296; lia).
-  rewrite (wrap_small 32 (1 * _)) by (change (2 ^ 32) with 4294967296; lia).
-  rewrite (wrap_small 32 (16777216 * tp + _)) by (change (2 ^ 32) with 4294967296; lia).
-  rewrite wrap_small by (change (2 ^ 32) with 4294967296; lia).
-  lia.
+  intros Htp Hlp Hc. unfold Priority. cbn [Z.eqb negb]. cbv zeta.
+  change (2 ^ 24) with 16777216. change (2 ^ 8) with 256. unwrap_goal. lia.
 Qed.
 
 Lemma priority_override ov tp lp comp : ov <> 0 -> Priority ov tp lp comp = ov.
@@ -122,15 +129,9 @@ Lemma priority_range tp lp comp :
   0 <= tp <= 126 -> 0 <= lp <= 65535 -> 0 <= comp <= 65535 ->
   0 <= Priority 0 tp lp comp <= 2147483647 /\ (1 <= comp <= 255 -> 1 <= Priority 0 tp lp comp).
 Proof.
-  intros Htp Hlp Hc. unfold Priority. cbn [Z.eqb negb].
-  pose proof (wrap_range 16 (256 - comp) ltac:(lia)) as Hw. change (2 ^ 16) with 65536 in Hw.
-  rewrite (wrap_small 32 (16777216 * tp)) by (change (2 ^ 32) with 4294967296; lia).
-  rewrite (wrap_small 32 (256 * lp)) by (change (2 ^ 32) with 4294967296; lia).
-  rewrite (wrap_small 32 (1 * _)) by (change (2 ^ 32) with 4294967296; lia).
-  rewrite (wrap_small 32 (16777216 * tp + _)) by (change (2 ^ 32) with 4294967296; lia).
-  rewrite wrap_small by (change (2 ^ 32) with 4294967296; lia).
+  intros Htp Hlp Hc. unfold Priority. cbn [Z.eqb negb]. cbv zeta. unwrap_goal.
   split; [lia|]. intros Hc1.
-  rewrite (wrap_small 16 (256 - comp)) by (change (2 ^ 16) with 65536; lia). lia.
+  repeat match goal with w := _ mod _ |- _ => subst w end. unwrap_goal. lia.
 Qed.
 
 Lemma candidate_priority_range ty nt tcp rp has_agent off comp :
